@@ -43,7 +43,23 @@ func run(r *core.Run) {
 	for i := range order {
 		order[i] = i
 	}
-	sort.SliceStable(order, func(a, b int) bool { return scs[order[a]].Cost > scs[order[b]].Cost })
+	// plain objects first, then family by family; inside a family the larger searches first (load balance)
+	family := func(sc *scenario) int {
+		fams := []string{"lattice/plain/", "lattice/", "chain/", "proto/", "pair/", "order/", "builtin/", "host/"}
+		for i, f := range fams {
+			if strings.HasPrefix(sc.Name, f) {
+				return i
+			}
+		}
+		return len(fams)
+	}
+	sort.SliceStable(order, func(a, b int) bool {
+		fa, fb := family(scs[order[a]]), family(scs[order[b]])
+		if fa != fb {
+			return fa < fb
+		}
+		return len(scs[order[a]].Ops) > len(scs[order[b]].Ops)
+	})
 	results := make([]scenarioResult, len(scs))
 	started := make([]bool, len(scs))
 	var mu sync.Mutex
